@@ -1320,6 +1320,12 @@ impl<'a> Reducer<'a> {
         cur.quads.dedup();
         for _round in 0..6 {
             let mut changed = self.ddmin_quads(&mut cur);
+            if cur.quads.len() > 40 {
+                // a failure that needs this many quads is about their number (chunking),
+                // not about their terms: leave the terms alone (each step would cost a
+                // round trip of the whole dataset)
+                break;
+            }
             // prefixes
             let mut i = 0;
             while i < cur.prefixes.len() {
@@ -1577,7 +1583,12 @@ fn features(c: &Case) -> Vec<String> {
     }
     if c.quads.len() >= 2 {
         let d = |f: &dyn Fn(&Qd) -> T| c.quads.iter().map(f).collect::<BTreeSet<_>>().len();
-        out.insert(format!("shape[quads={},subjects={},predicates={}]", c.quads.len(), d(&|q| q.s.clone()), d(&|q| q.p.clone())));
+        if c.quads.len() > 40 {
+            out.clear();
+            out.insert(format!("shape[quads={}]", c.quads.len()));
+        } else {
+            out.insert(format!("shape[quads={},subjects={},predicates={}]", c.quads.len(), d(&|q| q.s.clone()), d(&|q| q.p.clone())));
+        }
     }
     for (p, _) in &c.prefixes {
         let kind = if p.is_empty() {
@@ -1622,21 +1633,18 @@ fn report_one(ctx: &mut Ctx, c: &Case, f: F, first: &Res, origin: &str, backward
         let tag = if anywhere { ";anywhere_in_the_literal]" } else { ";only_at_an_end_of_the_literal]" };
         feats = feats.into_iter().map(|x| if x.starts_with("literal[") { x.replacen("]", tag, 1) } else { x }).collect();
     }
-    if !export_valid {
-        // the export does not even follow the grammar: for literals inside a quoted triple
-        // (written bare, without quotes) every delimiter character is a trigger of the same
-        // thing, so the character classes are left to the detail
+    if !export_valid && feats.iter().any(|x| x.starts_with("literal[") && x.ends_with("@inside_quoted_triple")) {
+        // the export does not even follow the grammar: a literal inside a quoted triple is
+        // written bare (no quotes), so every delimiter character is a trigger of the same
+        // thing and what surrounds the quoted triple only decides how the damage shows;
+        // the character classes and the surroundings are left to the detail
         let mut merged = BTreeSet::new();
         for x in feats {
             if x.starts_with("literal[") && x.ends_with("@inside_quoted_triple") {
                 merged.insert("hostile_literal@inside_quoted_triple_exported_without_delimiters".to_string());
-            } else if x != "quoted_triple@inside_quoted_triple" {
+            } else if x != "quoted_triple@inside_quoted_triple" && x != "named_graph" && x != "quoted_triple" {
                 merged.insert(x);
             }
-        }
-        if merged.contains("hostile_literal@inside_quoted_triple_exported_without_delimiters") {
-            // what else surrounds the quoted triple only decides how the damage shows
-            merged.retain(|x| x != "named_graph" && x != "quoted_triple");
         }
         feats = merged.into_iter().collect();
     }
